@@ -126,12 +126,13 @@ def run(chk, repo):
     chk.rule('C17.c', 'GVF line anchors at the first fragment start', 1)
     ts = repo.func('circ.CircRNA:CircRNAModel.to_string')
     chk.uses(ts)
-    anchor = sorted([n for n in walk_no_nested(ts.node) if isinstance(n, ast.Assign) and unparse(n.targets[0]) == 'start'], key=lambda n: n.lineno)
-    offs = [n for n in ast.walk(ts.node) if isinstance(n, ast.Call) and call_name(n) == 'append' and unparse(n.func.value) == 'offset']
-    ok = [norm_stmt(a) for a in anchor] == ['start = int(self.fragments[0].location.start)', 'start = str(start)'] and \
-        len(offs) == 1 and unparse(offs[0].args[0]) == 'str(fragment.location.start - start)'
+    from rules.shared import circ_writer
+    from sa.affine import Aff as _Aff
+    cw = circ_writer(repo, ts)
+    ok = cw['anchor_core'] == 'self.fragments[0].location.start' and cw['off'] is not None \
+        and cw['off'] == _Aff.sym('fragment.location.start') - _Aff.sym('F0')
     chk.ob('C17.c', 'start column = fragments[0].start; OFFSET_i = fragment_i.start - that start; not reassigned in between', ts.where, ok,
-           f"start bindings {[norm_stmt(a) for a in anchor]}: the start column written differs from the anchor the offsets were computed against "
+           f"start column `{cw['anchor']}`, OFFSET element {cw['off']!r}: the start column written differs from the anchor the offsets were computed against "
            "(every fragment is shifted when read back)", key=ts.qual + '::anchor', fn=ts.qual)
 
     # ------------------------------------------------------------------ d
